@@ -297,7 +297,10 @@ def _handle_block_end(line_num: int, violation: "Violation", state: _BlockState)
 
 def _parse_ignore_start_rules(line: str) -> set[str]:
     """Extract rule names from ignore-start directive."""
-    match = re.search(r"ignore-start\s+([^\s#]+(?:\s+[^\s#]+)*)", line)
+    bracket = re.search(r"ignore-start\[([^\]]+)\]", line, re.IGNORECASE)
+    if bracket:
+        return {r.strip() for r in bracket.group(1).split(",") if r.strip()}
+    match = re.search(r"ignore-start\s+([^\s#]+(?:\s+[^\s#]+)*)", line, re.IGNORECASE)
     if match:
         rules_text = match.group(1).strip()
         rules = [r.strip() for r in re.split(r"[,\s]+", rules_text) if r.strip()]
@@ -327,7 +330,7 @@ def _get_prev_line(lines: list[str], violation_line: int) -> str | None:
 
 def _matches_ignore_next_line_rules(prev_line: str, rule_id: str) -> bool:
     """Check if ignore-next-line directive matches the rule."""
-    match = re.search(r"ignore-next-line\[([^\]]+)\]", prev_line)
+    match = re.search(r"ignore-next-line\[([^\]]+)\]", prev_line, re.IGNORECASE)
     if match:
         return check_bracket_rules(match.group(1), rule_id)
     return True
